@@ -937,6 +937,7 @@ func TestVerifC29(t *testing.T) {
 		{srv, mk(c29Frame{Op: 1, Masked: true, Key: k, Payload: []byte{0xe2, 0x82}}, c29Frame{Fin: true, Op: 0, Masked: true, Key: k, Payload: []byte{0xac}}), "utf8-split"},
 		{srv, mk(c29Frame{Fin: true, Op: 8, Masked: true, Key: k, Payload: []byte{3, 232, 'o', 'k'}}, c29Frame{Fin: true, Op: 2, Masked: true, Key: k, Payload: []byte("x")}), "close-then-data"},
 		{srv, []byte{0xB3, 0x01, 0x41}, "many-errors"},
+		{withC(srv, func(c *c29Cfg) { c.Limit = 100 }), []byte{0x02, 0x82, 1, 2, 3, 4, 0x60, 0x60, 0x80, 0xff, 0x7f, 0xff, 0xff, 0xff, 0xff, 0xff, 0xff, 0xff, 1, 2, 3, 4, 0x62, 0x66}, "msglen63"},
 	}
 	for i := 0; i < w.N; i++ {
 		if !w.Want(i) {
